@@ -500,7 +500,7 @@ fn run_siblings(front: std::net::SocketAddr, s: &Scn) -> Res {
 /// an explicit outcome on the faulty stream (a final status, or RST_STREAM), a response cut short is never
 /// presented as complete, the frontend connection keeps answering, the sibling is answered (200 unless its
 /// backend connection went away, then any explicit outcome).
-const FAULTS: [&str; 7] = ["rst_first", "refused", "goaway_first", "close_first", "rst_mid", "close_mid", "goaway_mid"];
+const FAULTS: [&str; 9] = ["rst_first", "refused", "goaway_first", "close_first", "rst_mid", "close_mid", "goaway_mid", "bad_trailers_mid", "overrun_mid"];
 
 fn run_fault(front: std::net::SocketAddr, name: &'static str) -> Res {
     let mut viols: Vec<(String, String)> = vec![];
@@ -584,7 +584,7 @@ fn run_fault(front: std::net::SocketAddr, name: &'static str) -> Res {
                 bad("bb-fault-status", format!("unexpected final status {}", status[1]));
             }
         }
-        "rst_mid" | "close_mid" => {
+        "rst_mid" | "close_mid" | "bad_trailers_mid" | "overrun_mid" => {
             if end[1] == "clean" {
                 bad("bb-fault-truncated-clean", format!("the backend gave up after {FAULT_SENT} of {FAULT_BODY} announced bytes and the client saw the stream end cleanly with {} bytes", body[1]));
             } else if end[1] == "open" {
